@@ -45,8 +45,14 @@ def rules(model: Model, tier: str) -> List[RuleResult]:
     linopalg.adjoint_structure(model, A)
     ncfg = linopalg.constructor_shapes(model, SH, tier)
     linopalg.stateless(model, ST)
+    HF = RuleResult(PROP, "C11-HF", "Hermitian flag of composed operators: truth table against the specification (Add: a and b; Mul, Adjoint: operand; Matmul: caller only)", min_instances=4)
+    IP = RuleResult(PROP, "C11-IP", "products never modify in place a tensor obtained from their argument or from an operand's product", min_instances=20)
+    SC = RuleResult(PROP, "C11-SC", "scalars admitted by __mul__ are those for which MulLinearOperator._rmv is the adjoint", min_instances=2)
+    linopalg.hermitian_flags(model, HF)
+    linopalg.no_inplace_in_products(model, IP)
+    linopalg.scalar_validation(model, SC)
     rules.extra_coverage = dict(shape_configurations=ncfg)
-    return [F, C, V, H, P, A, SH, ST]
+    return [F, C, V, H, P, A, SH, ST, HF, IP, SC]
 
 
 # ------------------------------------------------------------------------------------------------- F
